@@ -172,6 +172,26 @@ def F16_eval_statements_quoted_nest():
     nf.eval("`n-x`.a = `n-x`.a + 1\n`n-x`.d = `n-x`.a * 2", inplace=True)
     return nf["`n-x`.d"].tolist() == [4.0, 6.0, 8.0], nf["`n-x`.d"].tolist()
 
+@case
+def F17_dtype_hash_after_parquet():
+    import io
+    import pyarrow as pa
+    import pyarrow.parquet as pq
+    from nested_pandas import NestedDtype
+    st = pa.struct([("a", pa.list_(pa.int64()))])
+    buf = io.BytesIO()
+    pq.write_table(pa.table({"c": pa.array([{"a": [1, 2]}], type=st)}), buf)
+    buf.seek(0)
+    back = NestedDtype(pq.read_table(buf)["c"].type)
+    d = NestedDtype(st)
+    return (back == d and hash(back) == hash(d) and back in {d}), (back == d, hash(back) == hash(d))
+
+@case
+def F18_from_lists_plain_dataframe():
+    df = pd.DataFrame({"k": [1, 2], "l": [[1, 2], [3]]})
+    r = NestedFrame.from_lists(df, base_columns=["k"], name="n")
+    return isinstance(r, NestedFrame), type(r).__name__
+
 if __name__ == "__main__":
     bad = 0
     for k, (ok, d) in R.items():
